@@ -6,6 +6,8 @@ use vstd::arithmetic::mul::*;
 use vstd::arithmetic::div_mod::*;
 use vstd::std_specs::bits::*;
 use vstd::bits::*;
+use core::cmp::Ordering;
+use vstd::std_specs::cmp::*;
 verus! {
 //@ include lib/base.rs
 //@ include lib/lvr.rs
@@ -24,6 +26,15 @@ pub fn reciprocal_2(d: u128) -> (v: u64)
 { reciprocal_2_mg10(d) }
 //@ import kernels submul_nx1
 //@ import kernels adc_n
+//@ import kernels sbb_n
+//@ import kernels cmp
+//@ import kernels mul_nx1
+//@ import kernels addmul_nx1
+pub open spec fn ord_of(a: int, b: int) -> Ordering {
+    if a < b { Ordering::Less } else if a == b { Ordering::Equal } else { Ordering::Greater }
+}
+pub assume_specification [<Ordering as PartialEq>::eq] (a: &Ordering, b: &Ordering) -> (r: bool)
+    ensures r == (*a == *b);
 
 //@ extract src/algorithms/mod.rs trait DoubleWord
 pub trait DoubleWord<T>: Sized + Copy {
